@@ -50,6 +50,11 @@ def gen_scripts(ctx, quick):
         base.update({"paced": k % 3 != 2, "stallMs": rnd.choice([50, 150]), "paceUs": rnd.choice([200, 2000]),
                      "burst": rnd.choice([700, 1500, 2500])})
         scripts.append(base)
+    # pulse runs (free-running writer): the writer is woken by forced emptying at a batch boundary
+    for k in range(4 if quick else 24):
+        base = dict(scripts[rnd.randrange(len(scripts))])
+        base.update({"paced": False, "stallMs": 0, "burst": 0, "pulses": 6})
+        scripts.append(base)
     return scripts
 
 
